@@ -203,9 +203,44 @@ def rule_owner(ctx) -> None:
     ocfg = ctx.cfg(ofq)
     okm = False
     for n in ocfg.nodes:
-        if n.kind == "stmt" and isinstance(n.ast, ast.Return) and n.ast.value is not None and "agent_id" in src(n.ast.value):
+        if n.kind == "stmt" and isinstance(n.ast, ast.Return) and n.ast.value is not None and "agent_id" in src(ctx.rd(ofq).inline(n.ast.value, n)):
             okm = any(p and "== 'agent'" in t for t, p in ocfg.facts(n))
     ctx.check(okm, "C11.OWNER", f"{ofq.qual}/agent-maps-to-agent-id", ofq.loc(), "owner_scope 'agent' maps to ctx.agent_id", "owner_scope 'agent' does not map to ctx.agent_id")
+    # None is the index's "no owner filter": under agent (or world) scope owner_for_query never returns None - a ctx without an
+    # agent id must not widen the query to every owner
+    for n in ocfg.nodes:
+        if n.kind == "stmt" and isinstance(n.ast, ast.Return) and n in ocfg.reachable_from_entry() and any(p and ("== 'agent'" in t or "== 'world'" in t) for t, p in ocfg.facts(n)):
+            v = n.ast.value
+            rdq = ctx.rd(ofq)
+
+            def may_be_none(e, at, depth=0) -> bool:
+                if e is None or (isinstance(e, ast.Constant) and e.value is None):
+                    return True
+                if isinstance(e, ast.Constant):
+                    return False
+                if isinstance(e, ast.Call) and dotted(e.func) == "getattr":
+                    return len(e.args) < 3 or may_be_none(e.args[2], at, depth + 1)
+                if isinstance(e, ast.Call) and dotted(e.func) in ("str", "repr", "int"):
+                    return False
+                if isinstance(e, ast.IfExp):
+                    t = src(e.test)
+                    # `x if x is not None else y`
+                    if isinstance(e.test, ast.Compare) and isinstance(e.test.ops[0], ast.IsNot) and isinstance(e.test.comparators[0], ast.Constant) and e.test.comparators[0].value is None and src(e.test.left) == src(e.body):
+                        return may_be_none(e.orelse, at, depth + 1)
+                    return may_be_none(e.body, at, depth + 1) or may_be_none(e.orelse, at, depth + 1)
+                if isinstance(e, ast.BoolOp) and isinstance(e.op, ast.Or):
+                    return may_be_none(e.values[-1], at, depth + 1)
+                if isinstance(e, ast.Name) and depth < 4:
+                    if not rdq.is_local(e.id):
+                        return False  # a module-level sentinel
+                    ds = [d for d in rdq.reaching(e.id, at) if d.kind != "mutate"]
+                    return not ds or any(d.value is None or may_be_none(d.value, d.node, depth + 1) for d in ds)
+                return True
+
+            ctx.check(not may_be_none(v, n), "C11.OWNER", ctx.okey(f"{ofq.qual}/scoped-owner-never-none"), ofq.loc(n.ast),
+                      "under agent / world scope the owner handed to the index is never None",
+                      f"under agent scope owner_for_query can return None (`{src(v)[:50] if v is not None else 'None'}` for a ctx without agent_id), which the index reads as 'no owner filter': the "
+                      "agent-scoped query returns every owner's episodes")
     # the embed-store reader path
     reader_nodes = [n for n in cfg.nodes if n.kind == "cond" and src(n.ast) == "use_reader"]
     for rn in reader_nodes:
